@@ -20,11 +20,11 @@ Definition spec_window (q : query) (r : row) : bool :=
   end.
 
 Definition spec_match (q : query) (r : row) : bool :=
-  str_cond (q_biotype q) (r_biotype r)
-  && str_cond (q_seqid q) (r_seqid r)
-  && str_cond (q_name q) (r_name r)
+  val_cond (q_biotype q) (r_biotype r)
+  && val_cond (q_seqid q) (r_seqid r)
+  && val_cond (q_name q) (r_name r)
   && str_cond (q_strand q) (r_strand r)
-  && attrs_cond (q_attrs q) (r_attrs r)
+  && attrs_cond_v (q_attrs_lit q) (q_attrs q) (r_attrs r)
   && (if r_table r =? 1 then bool_cond (q_on_aln q) (r_on_aln r) else true)
   && spec_window q r.
 
